@@ -377,8 +377,12 @@ def calfield(ctx, R):
         mname = f.name
         R.saw(f)
         selfn = f.params[0]
+        step_alias = {n_.targets[0].id for n_ in ast.walk(f.node) if isinstance(n_, ast.Assign) and len(n_.targets) == 1 and isinstance(n_.targets[0], ast.Name)
+                      and isinstance(n_.value, ast.Attribute) and n_.value.attr == "_step" and isinstance(n_.value.value, ast.Name) and n_.value.value.id == selfn}
         for c in calls_in(f.node):
-            if isinstance(c.func, ast.Attribute) and c.func.attr == "_step" and isinstance(c.func.value, ast.Name) and c.func.value.id == selfn and c.args:
+            is_step = isinstance(c.func, ast.Attribute) and c.func.attr == "_step" and isinstance(c.func.value, ast.Name) and c.func.value.id == selfn
+            is_step = is_step or (isinstance(c.func, ast.Name) and c.func.id in step_alias)  # step = self._step hoisted into a local
+            if is_step and c.args:
                 n += 1
                 a = c.args[0]
                 ok = _is_boundary_expr(f, a, selfn, set())
@@ -424,6 +428,13 @@ def calfield(ctx, R):
 
 
 def _is_boundary_expr(f, e, selfn, seen):
+    # a local alias of a boundary-producing callback:  step = self._step ; step(x, 1)
+    if isinstance(e, ast.Call) and isinstance(e.func, ast.Name):
+        al = [n_ for n_ in ast.walk(f.node) if isinstance(n_, ast.Assign) and len(n_.targets) == 1 and isinstance(n_.targets[0], ast.Name) and n_.targets[0].id == e.func.id]
+        if len(al) == 1 and isinstance(al[0].value, ast.Attribute) and isinstance(al[0].value.value, ast.Name) and al[0].value.value.id == selfn and al[0].value.attr in ("_local", "_step", "floor", "ceil", "offset"):
+            if al[0].value.attr in ("_step", "offset"):
+                return bool(e.args) and _is_boundary_expr(f, e.args[0], selfn, seen)
+            return True
     if isinstance(e, ast.Call) and isinstance(e.func, ast.Attribute) and isinstance(e.func.value, ast.Name) and e.func.value.id == selfn and e.func.attr in ("_local", "_step", "floor", "ceil", "offset"):
         if e.func.attr in ("_step", "offset"):
             return bool(e.args) and _is_boundary_expr(f, e.args[0], selfn, seen)
